@@ -36,18 +36,23 @@
     `.into()` is `From<u128> for BUint<N>` (`UI.fromUint … 128`).
   * `n_minus_1.into()`, `n.into()` are `From<u32> for BUint<N>` (`UI.fromUint … 32`); `bits / n + 1`
     etc. are `u32` computations that cannot overflow (`bits ≤ BITS`, which the crate casts to `u32`).
-  * DEFECTS KEPT (the Spec has the truth):
-      F4  `Integer::div_floor` / `mod_floor` for `BInt` are `/` and `%`: they truncate.
-      F5  `nth_root(n)`, `n ≥ 4`: `s.pow(n-1)` of the first guess `2^(bits/n+1)` overflows whenever
-          `(bits/n+1)(n-1) ≥ BITS` — panic "attempt to calculate power with overflow" in debug
-          builds; in release builds the wrapped power of a power of two is `0` and `self / 0` panics.
-    `…Fixed` variants below are the model after the planned `fix:` commits (see the report / header
-    of Props/C18.lean for the Rust patches).
+  * History.  Two defects of the pinned snapshot were repaired in /repo and the model below mirrors
+    the repaired code:
+      F4 (commit 1a88b70)  `Integer::div_floor` / `mod_floor` for `BInt` were `*self / *other` and
+          `*self % *other`, i.e. truncating (`-7 div_floor 2 = -3`, `mod_floor = -1`), and `div_rem`
+          was built from them.  Now `div_rem = (/, %)`, `div_floor` / `mod_floor` adjust the
+          truncated pair by the sign test of Leijen's note.
+      F5 (commit 7f46e5d)  the Newton step of `nth_root(n)`, `n ≥ 4`, computed `self / s.pow(n-1)`;
+          for the first guess `s = 2^(bits/n+1)` the power overflows whenever
+          `(bits/n+1)(n-1) ≥ BITS` (panic "attempt to calculate power with overflow" in debug builds,
+          division by the wrapped power `0` in release builds), e.g. `BUint::<4>::MAX.nth_root(17)`.
+          Now `match s.checked_pow(n-1) { Some(pow) => self / pow, None => ZERO }`.
 -/
 import Bnum.Model.Pow
 import Bnum.Model.Shift
 import Bnum.Model.Convert
 import Bnum.Model.Radix
+import Bnum.Model.Endian
 namespace Bnum
 namespace NumT
 
@@ -240,33 +245,25 @@ def nthStepTail (dbg : Bool) (w n : Nat) (s q : List Nat) : Outcome (List Nat) :
   (fromU32 w s.length n).bind fun nn =>
   (UI.divRemUnchecked w t nn).map (·.1)
 
-/-- closure of `nth_root`: `|s| { let q = self / s.pow(n_minus_1); … }` -/
+/-- closure of `nth_root`:
+    `|s| { let q = match s.checked_pow(n_minus_1) { Some(pow) => self / pow, None => Self::ZERO }; … }` -/
 def nthStep (dbg : Bool) (w n : Nat) (x s : List Nat) : Outcome (List Nat) :=
-  (UI.pow w dbg s (n - 1)).bind fun p =>
-  (UI.div w x p).bind fun q =>
-  nthStepTail dbg w n s q
-
-/-- the closure after the planned fix of F5:
-    `let q = match s.checked_pow(n_minus_1) { Some(p) => self / p, None => Self::ZERO };` -/
-def nthStepFixed (dbg : Bool) (w n : Nat) (x s : List Nat) : Outcome (List Nat) :=
   (match UI.checkedPow w s (n - 1) with
    | some p => UI.div w x p
    | none => .ok (zero x.length)).bind fun q =>
   nthStepTail dbg w n s q
 
-/-- the `_ =>` arm of `nth_root` after the `to_u128` shortcut, parametrised by the closure -/
-def nthNewtonWith (step : List Nat → List Nat → Outcome (List Nat)) (w n : Nat) (x : List Nat) :
-    Outcome (List Nat) :=
+/-- the `_ =>` arm of `nth_root` after the `to_u128` shortcut -/
+def nthNewton (dbg : Bool) (w n : Nat) (x : List Nat) : Outcome (List Nat) :=
   let bits := UI.bits w x
   if bits ≤ n then .ok (one x.length)
   else
     let maxBits := bits / n + 1
     (UI.powerOfTwo w x.length maxBits).bind fun guess =>
-    fixpoint w guess maxBits (step x)
+    fixpoint w guess maxBits (nthStep dbg w n x)
 
-/-- `Roots::nth_root` parametrised by the closure of the `_ =>` arm -/
-def nthRootWith (step : List Nat → List Nat → Outcome (List Nat)) (dbg : Bool) (w : Nat)
-    (x : List Nat) (n : Nat) : Outcome (List Nat) :=
+/-- `Roots::nth_root` -/
+def nthRoot (dbg : Bool) (w : Nat) (x : List Nat) (n : Nat) : Outcome (List Nat) :=
   match n with
   | 0 => .panic
   | 1 => .ok x
@@ -277,15 +274,7 @@ def nthRootWith (step : List Nat → List Nat → Outcome (List Nat)) (dbg : Boo
     else
       (toU128 w x).bind fun
         | some v => fromU128 w x.length (Prim.uRoot n v)
-        | none => nthNewtonWith step w n x
-
-/-- `Roots::nth_root` (current tree: F5 present) -/
-def nthRoot (dbg : Bool) (w : Nat) (x : List Nat) (n : Nat) : Outcome (List Nat) :=
-  nthRootWith (nthStep dbg w n) dbg w x n
-
-/-- `Roots::nth_root` — model after the planned fix: commit (F5) -/
-def nthRootFixed (dbg : Bool) (w : Nat) (x : List Nat) (n : Nat) : Outcome (List Nat) :=
-  nthRootWith (nthStepFixed dbg w n) dbg w x n
+        | none => nthNewton dbg w n x
 
 /-! ### forwarders of `src/int/numtraits.rs` (`impls!`) and `PrimInt` -/
 def minValue (n : Nat) : List Nat := zero n
@@ -334,6 +323,11 @@ def rotateLeft (w : Nat) (a : List Nat) (k : Nat) := UI.rotateLeft w a k
 def rotateRight (w : Nat) (a : List Nat) (k : Nat) := UI.rotateRight w a k
 def swapBytes (w : Nat) (a : List Nat) := UI.swapBytes w a
 def reverseBits (w : Nat) (a : List Nat) := UI.reverseBits w a
+/-- `PrimInt::to_be` … `from_le` (`e` = target is little-endian, `bw` = bytes per digit) -/
+def toBe (e : Bool) (bw : Nat) (a : List Nat) := UI.toBe e bw a
+def toLe (e : Bool) (bw : Nat) (a : List Nat) := UI.toLe e bw a
+def fromBe (e : Bool) (bw : Nat) (a : List Nat) := UI.fromBe e bw a
+def fromLe (e : Bool) (bw : Nat) (a : List Nat) := UI.fromLe e bw a
 /-- `PrimInt::signed_shl`, `unsigned_shl`: `self << n` -/
 def signedShl (dbg : Bool) (w : Nat) (a : List Nat) (k : Nat) := UI.shl dbg w a k
 def unsignedShl (dbg : Bool) (w : Nat) (a : List Nat) (k : Nat) := UI.shl dbg w a k
@@ -348,28 +342,39 @@ namespace I
 
 /-! ### `impl Integer for BInt<N>` -/
 
-/-- `Integer::div_floor`: `*self / *other` — F4: truncates -/
-def divFloor (dbg : Bool) (w : Nat) (a b : List Nat) : Outcome (List Nat) := II.div dbg w a b
-/-- `Integer::mod_floor`: `*self % *other` — F4: remainder of the truncating division -/
-def modFloor (dbg : Bool) (w : Nat) (a b : List Nat) : Outcome (List Nat) := II.rem dbg w a b
+/-- `Integer::div_rem`: `(*self / *other, *self % *other)` -/
+def divRem (dbg : Bool) (w : Nat) (a b : List Nat) : Outcome (List Nat × List Nat) :=
+  (II.div dbg w a b).bind fun q => (II.rem dbg w a b).bind fun r => .ok (q, r)
+
+/-- `(r.is_positive() && other.is_negative()) || (r.is_negative() && other.is_positive())`
+    (`r : Self` ⇒ inherent methods, `other : &Self` ⇒ the `Signed` trait methods, which forward) -/
+def floorAdjust (w : Nat) (r other : List Nat) : Bool :=
+  (II.isPositive w r && Bnum.Prim.isNeg w (topDigit other)) ||
+  (isNegative w r && II.isPositive w other)
+
+/-- `Integer::div_floor`:
+    `let (d, r) = self.div_rem(other); if <adjust> { d - Self::ONE } else { d }` -/
+def divFloor (dbg : Bool) (w : Nat) (a b : List Nat) : Outcome (List Nat) :=
+  (divRem dbg w a b).bind fun p =>
+    if floorAdjust w p.2 b then II.sub dbg w p.1 (one a.length) else .ok p.1
+
+/-- `Integer::mod_floor`: `let r = *self % *other; if <adjust> { r + *other } else { r }` -/
+def modFloor (dbg : Bool) (w : Nat) (a b : List Nat) : Outcome (List Nat) :=
+  (II.rem dbg w a b).bind fun r =>
+    if floorAdjust w r b then II.add dbg w r b else .ok r
 
 /-- `Integer::gcd`: `Self::from_bits(self.unsigned_abs().gcd(&other.unsigned_abs())).abs()` -/
 def gcd (dbg : Bool) (w : Nat) (a b : List Nat) : Outcome (List Nat) :=
   (U.gcd dbg w (II.unsignedAbs w a) (II.unsignedAbs w b)).bind fun g => Inh.abs dbg w g
 
-/-- `Integer::lcm` parametrised by the `div_floor` it calls:
-    `(self.div_floor(&self.gcd(other)) * *other).abs()` -/
-def lcmWith (divFloor : List Nat → List Nat → Outcome (List Nat)) (dbg : Bool) (w : Nat)
-    (a b : List Nat) : Outcome (List Nat) :=
+/-- `Integer::lcm`: `(self.div_floor(&self.gcd(other)) * *other).abs()` -/
+def lcm (dbg : Bool) (w : Nat) (a b : List Nat) : Outcome (List Nat) :=
   if isZero a || isZero b then .ok (zero a.length)
   else
     (gcd dbg w a b).bind fun g =>
-    (divFloor a g).bind fun q =>
+    (divFloor dbg w a g).bind fun q =>
     (II.mul w dbg q b).bind fun p =>
     Inh.abs dbg w p
-
-def lcm (dbg : Bool) (w : Nat) (a b : List Nat) : Outcome (List Nat) :=
-  lcmWith (divFloor dbg w) dbg w a b
 
 def isMultipleOf (dbg : Bool) (w : Nat) (a b : List Nat) : Outcome Bool :=
   (modFloor dbg w a b).map isZero
@@ -377,37 +382,9 @@ def divides (dbg : Bool) (w : Nat) (a b : List Nat) : Outcome Bool := isMultiple
 /-- `self.bits.is_even()` -/
 def isEven (a : List Nat) : Bool := U.isEven a
 def isOdd (a : List Nat) : Bool := U.isOdd a
-/-- `Integer::div_rem`: `(self.div_floor(other), self.mod_floor(other))` (truncating because of F4,
-    which is what `div_rem` is documented to do) -/
-def divRem (dbg : Bool) (w : Nat) (a b : List Nat) : Outcome (List Nat × List Nat) :=
-  (divFloor dbg w a b).bind fun q => (modFloor dbg w a b).bind fun r => .ok (q, r)
-/-- provided method `div_mod_floor` -/
+/-- provided method `div_mod_floor`: `(self.div_floor(other), self.mod_floor(other))` -/
 def divModFloor (dbg : Bool) (w : Nat) (a b : List Nat) : Outcome (List Nat × List Nat) :=
   (divFloor dbg w a b).bind fun q => (modFloor dbg w a b).bind fun r => .ok (q, r)
-
-/-! #### model after the planned fix: commit (F4)
-```
-fn div_floor(&self, other: &Self) -> Self { Self::div_floor(*self, *other) }
-fn mod_floor(&self, other: &Self) -> Self {
-    let r = *self % *other;
-    if !r.is_zero() && (r.is_negative() != other.is_negative()) { r + *other } else { r }
-}
-fn div_rem(&self, other: &Self) -> (Self, Self) { (*self / *other, *self % *other) }
-```
-(`div_mod_floor`, `lcm`, `is_multiple_of` keep their text and pick up the new methods.) -/
-def divFloorFixed (dbg : Bool) (w : Nat) (a b : List Nat) : Outcome (List Nat) :=
-  II.divFloor dbg w a b
-def modFloorFixed (dbg : Bool) (w : Nat) (a b : List Nat) : Outcome (List Nat) :=
-  (II.rem dbg w a b).bind fun r =>
-    if !(isZero r) && (isNegative w r != isNegative w b) then II.add dbg w r b else .ok r
-def divRemFixed (dbg : Bool) (w : Nat) (a b : List Nat) : Outcome (List Nat × List Nat) :=
-  (II.div dbg w a b).bind fun q => (II.rem dbg w a b).bind fun r => .ok (q, r)
-def divModFloorFixed (dbg : Bool) (w : Nat) (a b : List Nat) : Outcome (List Nat × List Nat) :=
-  (divFloorFixed dbg w a b).bind fun q => (modFloorFixed dbg w a b).bind fun r => .ok (q, r)
-def lcmFixed (dbg : Bool) (w : Nat) (a b : List Nat) : Outcome (List Nat) :=
-  lcmWith (divFloorFixed dbg w) dbg w a b
-def isMultipleOfFixed (dbg : Bool) (w : Nat) (a b : List Nat) : Outcome Bool :=
-  (modFloorFixed dbg w a b).map isZero
 
 /-! ### `impl Roots for BInt<N>` -/
 
@@ -420,21 +397,14 @@ def cbrt (dbg : Bool) (w : Nat) (x : List Nat) : Outcome (List Nat) :=
   if isNegative w x then (U.cbrt dbg w (II.unsignedAbs w x)).bind fun out => Inh.neg dbg w out
   else U.cbrt dbg w x
 
-/-- `Roots::nth_root` parametrised by the unsigned `nth_root` it calls -/
-def nthRootWith (uNthRoot : List Nat → Nat → Outcome (List Nat)) (w : Nat) (x : List Nat) (n : Nat) :
-    Outcome (List Nat) :=
+/-- `Roots::nth_root` -/
+def nthRoot (dbg : Bool) (w : Nat) (x : List Nat) (n : Nat) : Outcome (List Nat) :=
   if isNegative w x then
     if n == 0 then .panic
     else if n == 1 then .ok x
     else if n % 2 == 0 then .panic
-    else (uNthRoot (II.unsignedAbs w x) n).map fun out => II.wrappingNeg w out
-  else uNthRoot x n
-
-def nthRoot (dbg : Bool) (w : Nat) (x : List Nat) (n : Nat) : Outcome (List Nat) :=
-  nthRootWith (U.nthRoot dbg w) w x n
-/-- model after the planned fix: commit (F5) -/
-def nthRootFixed (dbg : Bool) (w : Nat) (x : List Nat) (n : Nat) : Outcome (List Nat) :=
-  nthRootWith (U.nthRootFixed dbg w) w x n
+    else (U.nthRoot dbg w (II.unsignedAbs w x) n).map fun out => II.wrappingNeg w out
+  else U.nthRoot dbg w x n
 
 /-! ### `impl Signed for BInt<N>` -/
 /-- `Signed::abs`: `Self::abs(*self)` -/
@@ -491,6 +461,10 @@ def rotateLeft (w : Nat) (a : List Nat) (k : Nat) := II.rotateLeft w a k
 def rotateRight (w : Nat) (a : List Nat) (k : Nat) := II.rotateRight w a k
 def swapBytes (w : Nat) (a : List Nat) := II.swapBytes w a
 def reverseBits (w : Nat) (a : List Nat) := II.reverseBits w a
+def toBe (e : Bool) (bw : Nat) (a : List Nat) := II.toBe e bw a
+def toLe (e : Bool) (bw : Nat) (a : List Nat) := II.toLe e bw a
+def fromBe (e : Bool) (bw : Nat) (a : List Nat) := II.fromBe e bw a
+def fromLe (e : Bool) (bw : Nat) (a : List Nat) := II.fromLe e bw a
 /-- `PrimInt::signed_shl`, `unsigned_shl`: `self << n` -/
 def signedShl (dbg : Bool) (w : Nat) (a : List Nat) (k : Nat) := II.shl dbg w a k
 def unsignedShl (dbg : Bool) (w : Nat) (a : List Nat) (k : Nat) := II.shl dbg w a k
